@@ -41,21 +41,22 @@ const (
 	KStart
 	KOnce
 	KClose
+	KPause
 )
 
-var kindNames = [...]string{"load", "store", "rmw", "casfail", "lock", "unlock", "rlock", "runlock", "send", "recv", "wgadd", "wgwait", "yield", "spawn", "start", "once", "close"}
+var kindNames = [...]string{"load", "store", "rmw", "casfail", "lock", "unlock", "rlock", "runlock", "send", "recv", "wgadd", "wgwait", "yield", "spawn", "start", "once", "close", "pause"}
 
 func (k Kind) String() string { return kindNames[k] }
 
 func (k Kind) writeLike() bool {
 	switch k {
-	case KLoad, KCASFail, KRLock, KWGWait, KYield, KStart:
+	case KLoad, KCASFail, KRLock, KWGWait, KYield, KStart, KPause:
 		return false
 	}
 	return true
 }
 
-const MaxThreads = 8
+const MaxThreads = 16
 
 type VC [MaxThreads]int32
 
@@ -660,6 +661,20 @@ func Yield() {
 		}
 		t.waitFor[u.ID] = u.steps
 	}
+}
+
+// Pause is a plain scheduling point for harness callbacks (other threads may run here); unlike
+// Yield it is not a spin-loop iteration and takes no part in fairness or livelock detection.
+func Pause() {
+	x := X
+	if x == nil || x.cur == nil {
+		return
+	}
+	Point(KPause, nil, nil)
+	if x.aborting {
+		return
+	}
+	x.cur.sig = x.cur.sig.Mix(uint64(KPause))
 }
 
 // Go runs f as a new virtual thread (rewritten `go` statements).
